@@ -34,6 +34,7 @@ SOFTWARE.
 
 #%%
 import math
+import re
 from fractions import Fraction
 import numpy as np
 from . import _n_word_max
@@ -473,30 +474,36 @@ def round_object(x, method):
     vals = [_round_one(v) for v in x.flatten()]
     return np.array(vals, dtype=object).reshape(x.shape)
 
-def get_sizes_from_dtype(dtype):
+_fxp_dtype_fmt = re.compile(r'fxp-(s|u)(\d+)/([+-]?\d+)(-complex)?')
+_q_dtype_fmt = re.compile(r'(s|u|q|uq|qu)(\d+)(\.[+-]?\d+)?')
+
+def get_sizes_from_dtype(dtype, complex_flag=False):
+    # the strings understood are those of the Fxp constructor: fxp-<sign><n_word>/<n_frac>{-complex} and Q/S notation, in any case
     if isinstance(dtype, str):
-        head, props = dtype.split('-', 1)
-        if head == 'fxp':
-            # sign
-            if props[0] == 's':
-                signed = True
-            elif props[0] == 'u':
-                signed = False
-            else:
-                raise ValueError('dtype sign specifier should be `s` or `u`')
-
-            # sizes
-            if props.endswith('-complex'):
-                props = props[:-len('-complex')]
-
-            n_word, n_frac = props[1:].split('/')
-            n_word = int(n_word)
-            n_frac = int(n_frac)
+        fmt = dtype.casefold()
+        is_complex = False
+        mo = _fxp_dtype_fmt.match(fmt)
+        if mo:
+            signed = mo.group(1) == 's'
+            n_word = int(mo.group(2))
+            n_frac = int(mo.group(3))
+            is_complex = mo.group(4) == '-complex'
         else:
-            raise ValueError('dtype str format must be fxp-<sign><n_word>/<n_frac>-<complex>')
+            mo = _q_dtype_fmt.match(fmt)
+            if mo:
+                # Q/S notation counts the sign bit as an integer bit: the total number of bits is int+frac
+                signed = mo.group(1) in 'sq'
+                n_frac = 0 if mo.group(3) is None else int(mo.group(3)[1:])
+                n_word = int(mo.group(2)) + n_frac
+            elif fmt.startswith('fxp-') and fmt[4:5] not in ('s', 'u'):
+                raise ValueError('dtype sign specifier should be `s` or `u`')
+            else:
+                raise ValueError('dtype str format must be fxp-<sign><n_word>/<n_frac>-<complex>')
     else:
         raise ValueError('dtype must be a str!')
 
+    if complex_flag:
+        return signed, n_word, n_frac, is_complex
     return signed, n_word, n_frac
 
 
